@@ -22,6 +22,15 @@ pub fn run_check(prop: &str, thorough: bool, seed: u64) -> Option<Report> {
             rep.absorb(crate::props_treasury::check_c13(if thorough { 2_000_000 } else { 40_000 }, seed));
             Some(rep)
         }
+        "C14" => {
+            let mut rep = Report::new("C14", tier, seed, "valid configurations from a generator (random prefixes, addresses built by the harness's own bech32 encoder, validator/monitor sets, channels over u64, denoms) with 0-3 field-level corruptions (13 fields x up to 14 corruption kinds: prefix swaps, case changes, truncation/extension, duplicates, checksum damage, bech32m, malformed channels/denoms), instantiated and then updated with every subset of sections and Add/RemoveValidator calls; non-trivial = a message differing from a valid one in exactly one field, or an accepted update of a strict subset of sections, or a validator change; distinct by case hash");
+            rep.assumptions = vec![
+                "well-formedness judged on what the Config query returns, with the harness's own bech32 decoder; upper-case and bech32m spellings count as checksum-valid (DESIGN 1.1)".into(),
+                "converse (valid => accepted) asserted only for configurations built by the valid generator".into(),
+            ];
+            rep.absorb(crate::props_config::check_c14(if thorough { 2_000_000 } else { 40_000 }, seed));
+            Some(rep)
+        }
         _ => None,
     }
 }
@@ -68,6 +77,7 @@ pub fn replay(prop: &str, file: &str) -> i32 {
     let res: Option<Result<(), String>> = match prop {
         "C12" => serde_json::from_value::<Vec<crate::props_treasury::OwnStep>>(case_v.clone()).ok().map(|c| crate::props_treasury::check_own_case(&c, &mut scratch)),
         "C13" => serde_json::from_value::<crate::props_treasury::TCase>(case_v.clone()).ok().map(|c| crate::props_treasury::check_tcase(&c, &mut scratch)),
+        "C14" => serde_json::from_value::<crate::props_config::CfgCase>(case_v.clone()).ok().map(|c| crate::props_config::check_cfg_case(&c, &mut scratch)),
         "C04" => serde_json::from_value::<crate::props_pure::RateCase>(case_v.clone()).ok().map(|c| crate::props_pure::check_rate_case(&c).map(|_| ())),
         "C09" => serde_json::from_value::<crate::props_pure::DeriveCase>(case_v.clone()).ok().map(|c| crate::props_pure::check_derive_case(&c).map(|_| ())),
         _ => None,
